@@ -4,12 +4,12 @@
 EXTENDS Naturals, Sequences
 SizeNames == {"1", "L-2", "L-1", "L", "L+1", "4L"}
 \* "H" (half the limit) is used only for chains of array-of-tables headers, which nest two levels per key
-Size(nm, L) == CASE nm = "1" -> 1 [] nm = "H" -> (L - 1) \div 2 [] nm = "L-2" -> L - 2 [] nm = "L-1" -> L - 1 [] nm = "L" -> L [] nm = "L+1" -> L + 1 [] nm = "4L" -> 4 * L
+Size(nm, L) == CASE nm = "1" -> 1 [] nm = "2" -> 2 [] nm = "H" -> (L - 1) \div 2 [] nm = "L-2" -> L - 2 [] nm = "L-1" -> L - 1 [] nm = "L" -> L [] nm = "L+1" -> L + 1 [] nm = "4L" -> 4 * L
 
 \* "AE" / "IE": like "A" / "I" with an empty container as the first sibling at every level ([[], [[], ... ]] and
 \* {e={}, k={e={}, k=...}}): an empty container must neither take nor give back a level
 Layers1 == {[c |-> "A", n |-> n, s |-> "1"] : n \in SizeNames}
-           \cup {[c |-> "I", n |-> n, s |-> s] : n \in SizeNames, s \in {"1", "L-1"}}
+           \cup {[c |-> "I", n |-> n, s |-> s] : n \in SizeNames, s \in {"1", "2", "L-1"}}
            \cup {[c |-> "AE", n |-> n, s |-> "1"] : n \in {"L-2", "L", "4L"}}
            \cup {[c |-> "IE", n |-> n, s |-> "1"] : n \in {"L-2", "L", "4L"}}
 Patterns == {[hs |-> h[1], hk |-> h[2], ks |-> ks, layers |-> ls] :
@@ -33,7 +33,7 @@ Bound(L) == 4 * L
 \* "documents nested below the limit in each single construct are still accepted"
 Single(p) == \/ (p.layers = <<>>)
              \/ (p.hs = "0" /\ p.ks = "1" /\ Len(p.layers) = 1 /\ (p.layers[1].c \in {"A", "AE"} \/ p.layers[1].s = "1"))
-Below(nm) == nm \in {"0", "1", "H", "L-2", "L-1"}
+Below(nm) == nm \in {"0", "1", "2", "H", "L-2", "L-1"}
 MustAccept(p) == /\ Single(p) /\ Below(p.hs) /\ Below(p.ks) /\ (p.hk = "chain" => p.hs \in {"1", "H"})
                  /\ \A i \in 1..Len(p.layers) : Below(p.layers[i].n) /\ Below(p.layers[i].s)
 
